@@ -172,6 +172,17 @@ def run(chk: core.Check):
     lines, keep = [], []
     for i in range(60 if quick else 1200):
         check_run(chk, c10.gen_cfg(r, i), lines, keep)
+    # populations far larger than usual in ONE likelihood call (a reweighting of 1e5 draws, an enlargement to n_final_samples > 2**16, a big
+    # initial population): the same clauses, whatever the size of the set
+    big = [{"sampler": "importance", "ns": "numpy", "width": "f64", "n_samples": 70_001, "dims": 1, "seed": 5, "half": 10.0, "prop_sigma": 9.0},
+           {"sampler": "minipcn_smc", "ns": "numpy", "width": "f64", "n_samples": 8, "n_final_samples": 66_000, "dims": 1, "seed": 6, "kernel_steps": 1,
+            "adaptive": False, "n_steps": 1}]
+    if not quick:
+        big += [{"sampler": "importance", "ns": "torch", "width": "f32", "n_samples": 140_000, "dims": 2, "seed": 7, "half": 10.0, "prop_sigma": 9.0},
+                {"sampler": "minipcn_smc", "ns": "numpy", "width": "f64", "n_samples": 66_000, "dims": 1, "seed": 8, "kernel_steps": 1, "adaptive": False, "n_steps": 1}]
+    for cfg in big:
+        chk.count("large_population_runs")
+        check_run(chk, cfg, [], [])
     check_aspire_level(chk, r, 9 if quick else 90)
     check_several_objects(chk, r, 8 if quick else 40)
     for (case, reported, like_sizes), rep in zip(keep, drv.batch(lines)):
